@@ -102,8 +102,8 @@ pub fn run(outdir: &Path, tier: &str, seed: u64, shards: usize, _replay: Option<
     let base_defs = vec![TypeDef::Scalar { name: "IDX".into() }, TypeDef::Object { name: "Query".into(), implements: vec![], fields: qfields }];
     let mut explicit_defs = vec![TypeDef::Scalar { name: "ID".into() }, TypeDef::Scalar { name: "String".into() }, TypeDef::Scalar { name: "Int".into() }];
     explicit_defs.extend(base_defs.iter().cloned());
-    let schema = SchemaDoc { defs: base_defs, schema_block: None };
-    let schema_explicit = SchemaDoc { defs: explicit_defs, schema_block: None };
+    let schema = SchemaDoc { defs: base_defs, schema_block: None , input_defaults: vec![] };
+    let schema_explicit = SchemaDoc { defs: explicit_defs, schema_block: None , input_defaults: vec![] };
     let doc = QueryDoc { defs: vec![QDef::Op { kind: OpKind::Query, name: Some("Q".into()), vars: vec![], sel }] };
     let opts = Opts { operation_name: Some("Q".into()), ..Opts::default() };
     let json_builtin = JsonVariant { data_wrapped: true, builtin_scalars: 1, meta_types: 2, is_one_of: false };
@@ -159,6 +159,7 @@ pub fn run(outdir: &Path, tier: &str, seed: u64, shards: usize, _replay: Option<
             },
         ],
         schema_block: None,
+        input_defaults: vec![],
     };
     let doc2 = QueryDoc {
         defs: vec![
